@@ -62,6 +62,7 @@ class G:
         self.loops = []           # per depth: "i" / "s" (loop variable type) / "of"
         self.in_forof = False
         self.hard = None
+        self.stringy = case.r.random() < 0.10      # a rule made mostly of string operators
         size = len(case.buf)
         self.offs = sorted({0, 1, 2, size - 1, size, size + 1, size - 2, size - 4, size - 3} |
                            {m[0] + d for s in rule.strs for m in s[2][:6] for d in (-1, 0, 1)} |
@@ -522,8 +523,10 @@ class G:
         if self.loops and len(self.loops) < MAXLOOPS and r.random() < 0.22:
             return self.gen_loop(d)
         u = r.random()
+        if self.stringy and r.random() < 0.6:
+            u = 0.2 if u < 0.5 else 0.52 + (u - 0.5) * 0.22            # and/or over string comparisons, string operators, matches
         has_strs = bool(self.rule.strs)
-        if u < 0.20:
+        if u <= 0.20:
             return (r.choice(["and", "or"]), self.gen_bool(d - 1), self.gen_bool(d - 1))
         if u < 0.27:
             return ("not", self.gen_bool(d - 1))
